@@ -271,7 +271,76 @@ pub fn selftest_lines(seed: u64, n: usize) -> Vec<String> {
             Some(r) => out.push(format!("rsize {} {} {}", hex(&a), hex(&b), hex(&r))),
             None => out.push(format!("rsize {} {} full", hex(&a), hex(&b))),
         }
+        if !is_zero(&b) {
+            out.push(format!("divfloor {} {} {}", hex(&a), hex(&b), hex(&div_floor(&a, &b))));
+        }
+        if !is_zero(&b) {
+            // k <= r
+            let k = if ucmp(&a, &b) == Ordering::Greater { sub(&a, &b).iter().zip(b.iter()).map(|(x, y)| x & y).collect::<Vec<u8>>() } else { a.clone() };
+            if ucmp(&k, &b) != Ordering::Greater {
+                match fibre_start(&k, &b, width) {
+                    Some(f) => out.push(format!("fibrestart {} {} {} {}", width, hex(&k), hex(&b), hex(&f))),
+                    None => out.push(format!("fibrestart {} {} {} none", width, hex(&k), hex(&b))),
+                }
+            }
+        }
+        if ucmp(&a, &b) != Ordering::Greater {
+            out.push(format!("midpoint {} {} {}", hex(&a), hex(&b), hex(&midpoint(&a, &b))));
+        }
         let _ = i;
     }
     out
+}
+
+/// a >> 1 (unsigned)
+pub fn shr1(a: &mut [u8]) {
+    let mut c = 0u8;
+    for x in a.iter_mut().rev() {
+        let n = *x & 1;
+        *x = (*x >> 1) | (c << 7);
+        c = n;
+    }
+}
+
+/// floor(num / den) for unsigned LE byte strings of any lengths (den > 0); result has num.len() bytes
+pub fn div_floor(num: &[u8], den: &[u8]) -> Vec<u8> {
+    assert!(!is_zero(den));
+    let n = num.len().max(den.len()) + 1;
+    let mut d = vec![0u8; n];
+    d[..den.len()].copy_from_slice(den);
+    let mut rem = vec![0u8; n];
+    let mut q = vec![0u8; num.len()];
+    for bit in (0..num.len() * 8).rev() {
+        shl1(&mut rem);
+        rem[0] |= (num[bit / 8] >> (bit % 8)) & 1;
+        if ucmp(&rem, &d) != Ordering::Less {
+            rem = sub(&rem, &d);
+            q[bit / 8] |= 1 << (bit % 8);
+        }
+    }
+    q
+}
+
+/// ceil(k * 2^(8*w) / r) as a w-byte value, for k <= r (k = r gives 2^(8w), returned as None)
+pub fn fibre_start(k: &[u8], r: &[u8], w: usize) -> Option<Vec<u8>> {
+    // numerator = k * 2^(8w) + (r - 1)
+    let mut num = vec![0u8; 2 * w + 1];
+    num[w..w + k.len().min(w + 1)].copy_from_slice(&k[..k.len().min(w + 1)]);
+    let mut rm1 = vec![0u8; 2 * w + 1];
+    rm1[..r.len()].copy_from_slice(r);
+    let rm1 = add_small(&rm1, -1);
+    let num = add(&num, &rm1);
+    let q = div_floor(&num, r);
+    if q[w..].iter().any(|&b| b != 0) {
+        None
+    } else {
+        Some(q[..w].to_vec())
+    }
+}
+
+/// (a + b) / 2 without overflow, a <= b
+pub fn midpoint(a: &[u8], b: &[u8]) -> Vec<u8> {
+    let mut d = sub(b, a);
+    shr1(&mut d);
+    add(a, &d)
 }
